@@ -17,7 +17,8 @@ open SpyneModel SpyneModel.Hier SpyneModel.Generated SpyneModel.Props
 theorem facts02_rt : facts02.GoodRT := ⟨by decide, by decide, by decide, by decide⟩
 
 /-- a configuration with wrapper keys and polymorphism switched on -/
-def polyCfg (cfg : Cfg) : Prop := cfg.ignoreWrappers = false ∧ cfg.complexAs = .dict ∧ cfg.polymorphic = true
+def polyCfg (cfg : Cfg) : Prop :=
+  cfg.ignoreWrappers = false ∧ cfg.complexAs = .dict ∧ cfg.polymorphic = true ∧ cfg.notWrapped = []
 
 theorem ctx (cfg : Cfg) (h : polyCfg cfg) : RtCtx facts08 facts02 cfg (ownSpell facts08 cfg) true :=
   ownCtx leafLaws08 facts02_rt (by simp [Cfg.selfConsistent, h.2.1])
@@ -34,8 +35,8 @@ theorem poly_roundtrip_keeps_class (cfg : Cfg) (h : polyCfg cfg) (R : Registry)
     (hpl : plainFields .dict cd.fields fvs = true) :
     decode facts08 facts02 cfg R (.obj name ns base fields o)
       (encOne R (ownSpell facts08 cfg) (.obj name ns base fields o) (.obj cd.name fvs)) = .good (.obj cd.name fvs) :=
-  poly_roundtrip R (ctx cfg h) (by simp [ownSpell, h.2.2]) (by simp [ownSpell, h.1]) name ns base fields o cd hfind hne hsub
-    hnd hwf fvs hc (fun hm => ⟨(hmp hm).1, fun _ => (hmp hm).2⟩) (by simpa [ownSpell, h.2.1] using hpl)
+  poly_roundtrip R (ctx cfg h) (by simp [ownSpell, h.2.2.1]) (by simp [ownSpell, h.1]) name ns base fields o cd hfind hne hsub
+    (by simp [h.2.2.2]) (by simp [h.2.2.2]) hnd hwf fvs hc (fun hm => ⟨(hmp hm).1, fun _ => (hmp hm).2⟩) (by simpa [ownSpell, h.2.1] using hpl)
 
 /-- The transmitted document names the subclass: the type marker is the single wrapper key, spelled the way member
     keys are, and it resolves — in the registry the reader uses — to that subclass. -/
@@ -48,9 +49,9 @@ theorem poly_marker_resolves (cfg : Cfg) (h : polyCfg cfg) (R : Registry)
       resolveClass R name fields (some cd.name) = .good (cd.name, cd.fields) := by
   refine ⟨Doc.map ((encodeFields (ownSpell facts08 cfg) R cd.fields fvs).map (fun p => (keyOut cfg p.1, p.2))), ?_,
     resolveClass_sub R name fields cd hfind hne hsub⟩
-  have hpt := polyTarget_sub R (S := ownSpell facts08 cfg) (by simp [ownSpell, h.2.2]) name fields cd hfind hne hsub
+  have hpt := polyTarget_sub R (S := ownSpell facts08 cfg) (by simp [ownSpell, h.2.2.1]) name fields cd hfind hne hsub
   simp only [encOne, hpt, wrapPairs]
-  simp [ownSpell, h.1, h.2.1]
+  simp [ownSpell, h.1, h.2.1, h.2.2.2]
 
 /-- Arrays of the base type holding any mix of base and subclass instances survive as a whole, item by item. -/
 theorem poly_array_roundtrip (cfg : Cfg) (R : Registry) (t : Ty) (vs : List Val)
@@ -82,9 +83,9 @@ def exBase : ClassDef := ⟨"Base".toList, "tns".toList, none, [("a".toList, .pr
 def exSub : ClassDef := ⟨"Sub".toList, "tns".toList, some "Base".toList,
   [("a".toList, .prim (.integer .i8 {}) {}), ("b".toList, .prim .boolean {})]⟩
 def exReg : Registry := [exBase, exSub]
-def exCfg : Cfg := ⟨.json, .soft, false, .dict, true, false, true⟩
+def exCfg : Cfg := ⟨.json, .soft, false, .dict, true, false, true, [], []⟩
 
-example : polyCfg exCfg := ⟨rfl, rfl, rfl⟩
+example : polyCfg exCfg := ⟨rfl, rfl, rfl, rfl⟩
 example : exReg.find? exSub.name = some exSub := by simp [exReg, exSub, exBase, Registry.find?]
 example : exReg.hier.isSub exReg.length exSub.name "Base".toList = true := by decide
 example : namesDistinct (exSub.fields.map (·.1)) = true ∧ wfFields exSub.fields = true := by decide
